@@ -159,6 +159,7 @@ func RunC01(c *Ctx, r *Report) {
 	c.fallbackRules(r, prefix, a)
 	c.unprotectGateRule(r, prefix+"unprotect-gate", a)
 	c.cipherNoStateRule(r, prefix+"cipher-no-state")
+	c.libraryObjectRule(r, prefix+"key-objects-are-library-objects")
 	c.registryLengthRules(r, prefix)
 	// rule 4: both header arms
 	c.headerArmRules(r, prefix, a)
